@@ -554,3 +554,20 @@ SPECS["C14"]["contracts"] += _REAL
 SPECS["C15"]["contracts"] += _REAL
 SPECS["C14"]["level_text"] += ("; Volume._realize_files (1, 2, 3 entries): a file whose lazy parser fails with InvalidFileEntry / ConstructError is left out, every other file is realised in table order "
                                "and the table itself is left as it was")
+
+# C18: the string level (the adapter every name field goes through), per stored length
+SPECS["C18"]["contracts"] += [f"smpl_extract.akai.akai_string:AkaiString._decode[len={k}]" for k in (0, 1, 2, 3)]
+SPECS["C18"]["level_text"] += "; AkaiString._decode applies the table position by position (same length, same order, nothing trimmed), proved for stored lengths 0..3"
+
+# C04: whole frames from the L/R (pipeline) transcoder - the block lemma gives len(block) = frames-of-the-longest-stream x frame size
+SPECS["C04"]["contracts"] += [k for k in SPECS["C12"]["contracts"] if k.startswith("lemma:pipeline_block[")]
+SPECS["C04"]["level_text"] += ". Added: every pipeline (multi-stream) block is a whole number of output frames whatever the streams' lengths (pipeline block lemma)"
+
+# C05: "names" are the sibling (directory) names - the generalized sample every export starts from carries exactly that name
+SPECS["C05"]["contracts"] += ["smpl_extract.akai.sample:AkaiSample.to_generalized[loops=0]", "smpl_extract.roland.s7xx.sample_file:SampleFile.to_generalized"]
+SPECS["C05"]["level_text"] += ". Added: the stored name the pairing guard compares is the directory name (to_generalized, AKAI and Roland)"
+
+# C06 / C10: a level of any size - one entry included - goes through the naming routines
+for _p in ("C06", "C10"):
+    SPECS[_p]["contracts"] += ["smpl_extract.structural:Traversable.children[first-use,one-routine]"]
+SPECS["C06"]["level_text"] += ". Added: Traversable.children hands a freshly realised level of ANY size (a lone entry included) to the routine table"
